@@ -348,7 +348,9 @@ H_health(o, e) ==
       cu == IF e.res THEN 0 ELSE x.consecU + 1
       v1 == IF ~HealthDeadlineOK(e.dl) THEN {V("C12", "health_check_context_deadline", e.i, e)} ELSE {}
       y == [x EXCEPT !.consecU = cu, !.hdue = ~e.res /\ cu >= N, !.hskip = @ \/ ~e.res]
-  IN R([SetI(o, e.i, y) EXCEPT !.unhealthy = @ \/ ~e.res], v1)
+      \* a checker that ignores its context and hangs stalls the heartbeat loop: the instance is cut off by user code
+      y2 == IF e.hang THEN [y EXCEPT !.cut = TRUE] ELSE y
+  IN R([SetI(o, e.i, y2) EXCEPT !.unhealthy = @ \/ ~e.res, !.faulty = @ \/ e.hang], v1)
 
 H_note(o, e) ==
   LET x == o.I[e.i]
